@@ -79,6 +79,16 @@ func concLevel(level int, beh string) levelSpec {
 		l.crlURLs, l.crlBeh = c, []string{"clean"}
 	case "crl-only-listed":
 		l.crlURLs, l.crlBeh = c, []string{"lists-cert"}
+	case "crl-only-delta-ok":
+		l.crlURLs, l.crlBeh = c, []string{"delta-ok"}
+	case "crl-only-many-entries-delta-entries":
+		l.crlURLs, l.crlBeh = c, []string{"many-entries-delta-entries"}
+	case "crl-only-many-entries-delta-lists":
+		l.crlURLs, l.crlBeh = c, []string{"many-entries-delta-lists-cert"}
+	case "crl-only-delta-lists":
+		l.crlURLs, l.crlBeh = c, []string{"delta-lists-cert"}
+	case "crl-only-base-lists-delta-removes":
+		l.crlURLs, l.crlBeh = c, []string{"base-lists-delta-removes"}
 	case "ocsp-only-good":
 		l.ocspURLs, l.ocspBeh = o, []string{"good"}
 	case "ocsp-only-unknown":
@@ -799,6 +809,12 @@ func genC17(r *Runner) {
 			add(concScenario{Kind: "callers", Mode: "full", Beh: beh, Callers: c, RealFetcher: real, Rounds: rounds})
 		}
 		add(concScenario{Kind: "callers", Mode: "ocsp", Beh: []string{"good", "revoked", "ocsp-only-unknown"}, Callers: c, Rounds: 3})
+	}
+	// callers sharing parsed bundles that carry a delta list with entries (the same *Bundle object is handed to every check)
+	for _, c := range []int{2, 8} {
+		for _, beh := range [][]string{{"crl-only-delta-lists", "crl-only-base-lists-delta-removes"}, {"crl-only-many-entries-delta-entries", "crl-only-many-entries-delta-lists", "crl-only-delta-lists"}} {
+			add(concScenario{Kind: "callers", Mode: "full", Beh: beh, Callers: c, Rounds: 3})
+		}
 	}
 	// overlapping callers, the first one disturbed while its downloads are in flight
 	for _, beh := range [][]string{{"crl-only-clean"}, {"crl-only-clean", "crl-only-listed"}, {"unknown-crl-clean", "crl-only-clean"}, {"crl-only-listed", "good", "crl-only-clean"}} {
